@@ -1,5 +1,6 @@
 (** C04 — property theorems on the depth-counter kernel (stack.rs) and the array index sites. *)
 From Coq Require Import List Arith Bool NArith.
+From JrV Require Import Gen.GenStack.
 From JrV Require Import C04.Model C04.Proofs C08.Model C08.Proofs.
 Import ListNotations.
 Local Open Scope nat_scope.
@@ -50,3 +51,21 @@ Example C04_depth_example :
   run_all [Call [Call [] true; Call [] false] false; chain 5; Limit 1 [chain 3]] (mkSt 0 3 0)
   = ([Failed; StackOverflow; StackOverflow], mkSt 0 3 3).
 Proof. reflexivity. Qed.
+
+(** the counter model IS the source: the four state transformers of stack.rs, translated statement by
+    statement from /repo's working tree on every run (Gen/GenStack.v), are the model's [enter], [leave]
+    and the two halves of a [Limit] frame.  A change of check_depth / the guards' Drop / limit_stack_depth
+    that is not extensionally the same function breaks this theorem (or the translation, which then
+    says what it could not translate). *)
+Theorem C04_model_is_translated_source :
+  (forall s, gen_check_depth (cur s) (C04.Model.max s)
+             = option_map (fun s' => (cur s', C04.Model.max s')) (enter s)) /\
+  (forall s, gen_guard_drop (cur s) (C04.Model.max s) = (cur (leave s), C04.Model.max (leave s))) /\
+  (forall n s, gen_limit n (cur s) (C04.Model.max s) = ((cur s, cur s + n), C04.Model.max s)) /\
+  (forall old c m, gen_limit_drop old c m = (c, old)).
+Proof.
+  repeat split.
+  - intros s. unfold gen_check_depth, enter. destruct (Nat.ltb (cur s) (C04.Model.max s)); simpl; [|reflexivity].
+    rewrite Nat.add_1_r. reflexivity.
+Qed.
+Print Assumptions C04_model_is_translated_source.
